@@ -88,10 +88,12 @@ end
 
 def builtinNames : List String := ["Real", "Integer", "Boolean", "String"]
 
-/-- the enclosing scopes of `scope`, innermost first, ending with the root `[]` -/
-def scopesOf : Path → List Path
-  | [] => [[]]
-  | n :: ns => (scopesOf ns).map (n :: ·) ++ [[]]
+/-- the innermost enclosing scope of `scope` (a prefix `scope.take j`, `j ≤ i`, longest first) that
+    declares a class named `h` -/
+def findScope (paths : List Path) (h : Name) (scope : Path) : Nat → Option Path
+  | 0 => if paths.contains (scope.take 0 ++ [h]) then some (scope.take 0) else none
+  | i + 1 =>
+    if paths.contains (scope.take (i + 1) ++ [h]) then some (scope.take (i + 1)) else findScope paths h scope i
 
 /-- lexical lookup: the first identifier binds in the innermost scope that declares it -/
 def resolveRef (paths : List Path) (scope : Path) (ref : List Name) : Except Err Ty :=
@@ -101,7 +103,7 @@ def resolveRef (paths : List Path) (scope : Path) (ref : List Name) : Except Err
     if builtinNames.contains h then
       if t.isEmpty then .ok (.builtin h) else .error (.resolve ("lookup inside builtin " ++ h))
     else
-      match (scopesOf scope).find? fun s => paths.contains (s ++ [h]) with
+      match findScope paths h scope scope.length with
       | none => .error (.resolve ("class not found: " ++ ".".intercalate ref))
       | some s =>
         if paths.contains (s ++ ref) then .ok (.cls (s ++ ref))
